@@ -3,7 +3,7 @@ CONSTANTS
   Cons = {"s1", "s2"}
   Healthy = {"h"}
   Other = {"hb"}
-  N = 1
+  N = 2
   HCap = 64
   Parts = 1
   ElemParts = 1
@@ -14,8 +14,8 @@ CONSTANTS
   MaxPub = 6
   MaxRead = 4
   MaxStall = 2
-  MaxSweep = 3
+  MaxSweep = 1
   MaxLeave = 1
   MaxPubB = 2
 INVARIANTS Quiescent QueueBound WholeUnits
-VIEW GView
+ACTION_CONSTRAINT EmitA
